@@ -205,6 +205,16 @@ def _ccf_run(ctx, rng, case, refill):
         cfg.bucket_size = rng.choice([1, 2, 2, 3])
         cfg.max_swaps = rng.choice([1, 2, 4])
     keys = ck.gen_keys(rng, cfg, rng.randint(3, 10) if not refill else rng.randint(5, 14))
+    if cfg.hf is None and not cfg.err_bits and rng.random() < 0.2:
+        # keys whose raw fingerprint is 0 (the value that marks an empty slot in the export format, so the library stores another one):
+        # they form ONE fingerprint class like any other colliding keys.  Keys with raw fingerprint 1 are left out, so that whatever
+        # value the library uses instead of 0 - it documents 1 - meets no other key of the universe.
+        cfg.finger_size = 1
+        zs = [k for k in (f"z{i}" for i in range(3000)) if cfg.raw_fp(k) == 0][: rng.randint(1, 3)]
+        keys = [k for k in keys if cfg.raw_fp(k) not in (0, 1)] + zs
+        rng.shuffle(keys)
+        if zs:
+            ctx.count("ccf.universes_with_zero_fingerprint_keys")
     if len(keys) < 2:
         return
     # histories with repeated adds so that bins with count > 1 get kicked and re-inserted through expansions
